@@ -176,7 +176,7 @@ class Field(Validator, Parser, Writer):
     if getattr(obj, "_default_gfa_tag_datatype",None):
       return obj._default_gfa_tag_datatype()
     else:
-      if isinstance(obj, list) and\
+      if isinstance(obj, list) and len(obj) > 0 and\
              (all([isinstance(v, builtins.int) for v in obj]) or
               all([isinstance(v, builtins.float) for v in obj])):
         return "B"
